@@ -112,6 +112,21 @@ def directed(rng, tier):
             items.append({"id": "ifbr_%s_%d" % (how, extra), "module": m,
                           "script": [INST] + [{"op": "call", "inst": 1, "export": "t", "args": [arg("i32", c), arg("i32", k)]}
                                               for c in (0, 1) for k in (0, 1, 2, 7)]})
+    # (b3) bodies that never produce their result on a live path: only unreachable / an unconditional branch / return
+    funcs, exports, tys = [], [], []
+    for rt in ("", "i32", "i64", "f32", "f64"):
+        ty = {"p": ["i32"], "r": [rt] if rt else []}
+        if ty not in tys:
+            tys.append(ty)
+        zero = [[rt + ".const", b32(0) if rt in ("i32", "f32") else b64(0)]] if rt else []
+        for nm, body in (("never", [["unreachable"], ["end"]]),
+                         ("blk", [["block", rt], ["unreachable"], ["end"], ["end"]]),
+                         ("ret", zero + [["return"], ["end"]]),
+                         ("cond", [["local.get", 0], ["if", ""], ["unreachable"], ["end"]] + zero + [["end"]])):
+            funcs.append({"type": tys.index(ty), "locals": [], "body": body})
+            exports.append({"name": "%s_%s" % (nm, rt or "void"), "kind": "func", "idx": len(funcs) - 1})
+    items.append({"id": "stubs", "module": {"types": tys, "funcs": funcs, "exports": exports},
+                  "script": [INST] + [{"op": "call", "inst": 1, "export": e["name"], "args": [arg("i32", a)]} for e in exports for a in (0, 1)]})
     # (c) locals: zero-initialised, any number and type; params keep the arguments; set/tee visible
     for nloc in ([0, 3, 40] if tier == "quick" else [0, 1, 3, 17, 40, 200]):
         types = [rng.choice(["i32", "i64", "f32", "f64"]) for _ in range(nloc)]
